@@ -138,6 +138,53 @@ theorem new_file_rec {d d1 d3 : Disk} {f f1 : Array Nat} {chunks : List (Nat × 
   rw [if_neg hsz]
   rfl
 
+/-- the record the reader makes of a new file entry below the prefix `pfx` -/
+def newRecAt (b : Fs.Fat.Bpb) (chunks : List (Nat × Bytes)) (pfx e : Bytes) (cl : List Nat) : FileRec :=
+  { path := entPath pfx e, access := e.getD 11 0, locked := decide (e.getD 11 0 % 2 = 1), eof := le32 e 28,
+    chunks := (((List.range cl.length).map (blockOf b chunks)).zipIdx.map (fun (d, i) => (i, d))), owned := cl }
+
+/-- **a new file entry is read as the stored file**, at any level: the clusters `cl` form a link chain in the final FAT (or
+there is none), and in the final image cluster `j` of it holds block `j` -/
+theorem new_file_rec_at {d3 : Disk} {b : Fs.Fat.Bpb} {f1 : Array Nat} {chunks : List (Nat × Bytes)} {cl : List Nat}
+    (g3 : Geo d3) (hb3 : d3.bpb = b) (hnd : cl.Nodup) (hin : ∀ c ∈ cl, 2 ≤ c)
+    (hch : cl = [] ∨ ∃ c0, cl.head? = some c0 ∧ IsChain f1 (hiOf b) c0 cl)
+    (hdat : ∀ j c, cl[j]? = some c → ∀ i, i < b.spc → d3.raw.units[b.firstClusterSec c + i]? =
+      some (((blockOf b chunks j).drop (i * 512)).take 512))
+    {e : Bytes} (fuel : Nat) (pfx : Bytes) (hbit : (e.getD 11 0 / 16) % 2 = 0)
+    (hc1 : (cl = [] ∧ le16 e 26 = 0 ∧ le32 e 28 = 0) ∨ (∃ c0 rest, cl = c0 :: rest ∧ le16 e 26 = c0))
+    (hsize : le32 e 28 ≤ cl.length * b.blockSize) :
+    rdEnt d3.raw (rbpb d3.bpb) f1 false (hiOf d3.bpb) fuel pfx e = .ok [newRecAt b chunks pfx e cl] := by
+  subst hb3
+  have hchain : fileChain f1 false (hiOf d3.bpb) (le16 e 26) (le32 e 28) = .ok cl := by
+    unfold fileChain
+    rcases hc1 with ⟨h1, h2, h3⟩ | ⟨c0, rest, h1, h2⟩
+    · rw [h2, h3, h1]; rfl
+    · have hc0 := hin c0 (by rw [h1]; simp)
+      rw [h2, if_neg (by omega)]
+      rcases hch with h0 | ⟨c0', hh, q1⟩
+      · rw [h0] at h1; cases h1
+      · rw [h1] at hh
+        simp only [List.head?_cons, Option.some.injEq] at hh
+        subst hh
+        have hlen := chain_length_le q1 hnd
+        have := chain_of_isChain q1 (hiOf d3.bpb + 1) [] hnd (by simp) (by omega)
+        simpa using this
+  have hdata : cl.mapM (clusterData d3.raw (rbpb d3.bpb)) = .ok ((List.range cl.length).map (blockOf d3.bpb chunks)) := by
+    apply mapM_ok_idx
+    intro j c hj
+    exact clusterData_of_units g3 (c := c) (hin c (List.mem_of_getElem? hj)) (Q := blockOf d3.bpb chunks j)
+      (by unfold blockOf; exact quantize_length _ _) (hdat j c hj)
+  rw [rdEnt_file hbit]
+  unfold fileRec
+  simp only [hchain, hdata]
+  have hsz : ¬ (le32 e 28 > cl.length * (rbpb d3.bpb).spc * (rbpb d3.bpb).bps) := by
+    have : cl.length * (rbpb d3.bpb).spc * (rbpb d3.bpb).bps = cl.length * d3.bpb.blockSize := by
+      unfold Bpb.blockSize rbpb
+      simp only [Nat.mul_assoc]
+    omega
+  rw [if_neg hsz]
+  rfl
+
 theorem noLeak_inserted {v : Vol} {F1 F2 : List FileRec} {g : FileRec} {free' : List Nat} (hv : v.files = F1 ++ F2)
     (hn : v.noLeak = true) (hfree : ∀ x, x ∈ free' ↔ x ∈ v.freeUnits ∧ x ∉ g.owned) : (inserted v F1 F2 g free').noLeak = true := by
   unfold Vol.noLeak at hn ⊢
